@@ -9,7 +9,7 @@ THEOREMS = ['C05_ampcons', 'C05_ampcons_dir', 'C05_ampcons_dir_both', 'C05_flank
             'C05_mono_steps', 'C05_mono_range', 'C05_rank', 'C05_rank_undefined', 'C05_rank_range', 'C05_rank_order', 'C05_routing']
 RULE = ("(a) synthetic tables: rise / decay voltages over small integers incl. 0 and negatives (NaN, -inf, clamp, ratios > 1), periods, volt_amp with ties, both "
         "centrings, directions both/next/last, n = 0..12; (b) tables from compute_features(burst_method='cycles') on generated signals (tie-rich quantised / clipped / "
-        "plateau families included), both centrings, row labels 0..n-1 / offset (a cut table) / reversed (positions, not labels, define neighbours), one peak-centred table in three also WITHOUT its sample columns (known finding): amp_fraction, amp_consistency, period_consistency, monotonicity columns vs the Lean model and the centring-free "
+        "plateau families included), both centrings, row labels 0..n-1 / offset (a cut table) / reversed (positions, not labels, define neighbours), one table in three also WITHOUT its sample columns (peak-centred: known finding; trough-centred: judged), the recording and its table cropped at a cycle boundary (first cycle at sample 0): amp_fraction, amp_consistency, period_consistency, monotonicity columns vs the Lean model and the centring-free "
         "Lean specification (flank sequence; strict steps); NaN pattern exact, finite values within 1e-12; distinct = distinct inputs; non-trivial = >= 3 cycles")
 ASSUMPTIONS = ["pandas Series.rank(method='average'), np.nanmin, np.mean are transcribed primitives (E6)", "finite values compared within 1e-12 relative"]
 BATCH = 300
@@ -127,6 +127,22 @@ def evaluate(ctx, cases):
             reqs.append('mono.spec %s %s %s' % (T, proto.enc_list(x), rows)); items.append(('mono_spec', ['ok', [float(v) for v in df['monotonicity'].values]], 'judge'))
             # the columns of the returned table are these functions' values
             items.append(('cols', None, 'cols'))
+            if c.get('lab', 0) == 0 and len(df) >= 3:
+                # the recording and its table CROPPED at a cycle boundary (limit_df / limit_signal at the time of a side extremum): the first cycle then starts at
+                # sample 0; monotonicity of the remaining cycles is what it was
+                side_ = 'trough' if pc else 'peak'
+                s0 = int(df['sample_last_' + side_].values[1])
+                dfc = df.iloc[1:].copy()
+                for col in dfc.columns:
+                    if col.startswith('sample_'): dfc[col] = dfc[col] - s0
+                dfc = dfc.reset_index(drop=True)
+                xc = xi[s0:]
+                items.append(('mono_cropped', (_wrap(lambda: compute_monotonicity(dfc, xc)), [float(v) for v in df['monotonicity'].values[1:]]), 'cropped'))
+            if (not pc) and c.get('nosamp'):
+                # a TROUGH-centred table without its sample columns is analysed as what it is (the code's default when no sample column is there)
+                dfn_t = df[[col for col in df.columns if not col.startswith('sample_')]]
+                for dr in DIRS:
+                    reqs.append('ampcons.spec F %s %s %s' % (dr, r, d)); items.append(('ac_nosamp_trough_' + dr, _wrap(lambda: compute_amp_consistency(dfn_t, direction=dr)), 'judge'))
             if pc and c.get('nosamp'):
                 # the same PEAK-centred table WITHOUT its sample columns (compute_features(return_samples=False)): the statement's pairing is the peak-centred
                 # one; the code recognises the centring by a `sample_peak` column only (KNOWN FINDING, known_findings.json: it then pairs the trough-centred way)
@@ -173,6 +189,11 @@ def evaluate(ctx, cases):
                                 judge_ok = False; info['relabelled_' + col] = 'compute_burst_features on a table with row labels %s differs row for row' % list(df.index[:3])
                     except Exception as e:
                         judge_ok = False; info['relabelled'] = type(e).__name__ + ': ' + str(e)[:100]
+                continue
+            if role == 'cropped':
+                got, want = impl
+                if got[0] != 'ok' or len(got[1]) != len(want) or not all((a != a and b != b) or a == b for a, b in zip(got[1], want)):
+                    judge_ok = False; info[name] = dict(impl=(got if got[0] != 'ok' else got[1][:8]), expected=want[:8])
                 continue
             if role == 'known_ac':
                 a, b = ans[j], ans[j + 1]; j += 2
